@@ -2,6 +2,7 @@ package gorums
 
 import (
 	"context"
+	"errors"
 
 	"github.com/relab/gorums/ordering"
 	"google.golang.org/protobuf/reflect/protoreflect"
@@ -65,11 +66,28 @@ func (c RawConfiguration) QuorumCall(ctx context.Context, d QuorumCallData) (res
 			return resp, QuorumCallError{cause: ctx.Err(), errors: errs, replies: len(replies)}
 		}
 		if len(errs)+len(replies) == expectedReplies {
-			if ctx.Err() != nil {
-				// the context ended (which may be why the remaining nodes failed)
+			if failedByContext(ctx, errs) {
+				// the context ended, which is why (some of) the remaining nodes failed
 				return resp, QuorumCallError{cause: ctx.Err(), errors: errs, replies: len(replies)}
 			}
 			return resp, QuorumCallError{cause: Incomplete, errors: errs, replies: len(replies)}
 		}
 	}
+}
+
+// failedByContext reports whether ctx has ended and at least one of the node
+// errors is the context's error; that is, whether the nodes have not all
+// answered by themselves. A call whose nodes have all answered is incomplete,
+// also if the context happens to end before that has been reported.
+func failedByContext(ctx context.Context, errs []nodeError) bool {
+	ctxErr := ctx.Err()
+	if ctxErr == nil {
+		return false
+	}
+	for _, e := range errs {
+		if errors.Is(e.cause, ctxErr) {
+			return true
+		}
+	}
+	return false
 }
